@@ -832,7 +832,12 @@ func tgBreak(r *rand.Rand, g *gCfg) string {
 		tk = sortedKeysT(g.tgts)
 	}
 	t := g.tgts[pickS(r, tk)]
-	switch r.Intn(6) {
+	switch r.Intn(7) {
+	case 6:
+		// a request entry that is itself named "": a target that names no request is still refused
+		t.req = ""
+		g.reqs[""] = pickS(r, tgDigests)
+		return "empty-request-with-empty-named-entry"
 	case 0:
 		g.tgts[""] = tgRandTgt(r, g)
 		return "empty-name"
